@@ -41,7 +41,7 @@ BUDGET = {'quick': 45, 'thorough': 900}
 PROBES = ['variants_opened', 'open_succeeded', 'open_refused_documented', 'fault:truncate', 'fault:torn-prefix', 'fault:lost-writes', 'fault:zero-sector',
           'fault:copy-sector', 'fault:stale-sector', 'fault:field', 'fault:field-pair', 'fault:seek-end', 'fault:random-bytes', 'fault:alias-dirs', 'fault:dup-chain', 'fault:struct-extremes', 'udf_tag_refixed',
           'memory_measured', 'variants_skipped_run_step_budget', 'images_with_udf', 'images_with_rr', 'images_with_eltorito', 'images_with_hybrid']
-ASSUMPTIONS = ['"promptly" = within min(50 x parent + 2M, max(12M, 4 x parent)) + 2 per image byte interpreter events, parent = opening the undamaged image; a deterministic measure independent of machine load',
+ASSUMPTIONS = ['"promptly" = within min(50 x parent + 2M, max(4M, 4 x parent)) + 2 per image byte interpreter events, parent = opening the undamaged image; a deterministic measure independent of machine load',
                'one run spends at most 4M events on damaged variants (the rest are skipped and counted in variants_skipped_run_step_budget)',
                'the 60 s soft / 120 s hard wall limits of the runner only guard against a stall outside Python code and end in exit 2, never in a verdict']
 SHRINK_LIST_KEYS = ['faults', 'ops']
@@ -516,7 +516,7 @@ def execute(plan):
                     spans = sorted((s, s + l) for (k, s, l) in alloc.build(data, m).objects if k != 'file')
                     # + 2 events per byte: one linear pass over the image (the boot-info-table checksum of a boot file whose damaged
                     # length reaches to the end of a cylinder-padded image) is in proportion to the input
-                    step_limit = min(50 * base_steps + 2000000, max(12000000, 4 * base_steps)) + 2 * len(data)
+                    step_limit = min(50 * base_steps + 2000000, max(4000000, 4 * base_steps)) + 2 * len(data)
                     spent = 0
                     for vi, flist in enumerate(plan.get('faults') or []):
                         if spent > RUN_STEP_BUDGET:
